@@ -133,6 +133,8 @@ pub enum Misbehave {
     BusyForever(u64),
     /// ... seeded random bytes
     Garbage(u64, u64),
+    /// ... one constant byte
+    Constant(u64, u8),
 }
 
 #[derive(Clone, Debug, Default)]
@@ -645,6 +647,10 @@ impl Card {
             Misbehave::BusyForever(n) if idx >= n => {
                 self.corrupted_this_call = true;
                 return self.log(mosi, 0x00);
+            }
+            Misbehave::Constant(n, b) if idx >= n => {
+                self.corrupted_this_call = true;
+                return self.log(mosi, b);
             }
             Misbehave::Garbage(n, _) if idx >= n => {
                 self.corrupted_this_call = true;
